@@ -495,6 +495,7 @@ func apisimMain(c *Ctx) {
 				ac.Short = 1 + r.Intn(20)
 			}
 		}
+		c.Begin(seed, ac)
 		vs, evals, imgs := runAPICase(c, ac, simrt.NewTape(seed), true)
 		c.Res.Runs++
 		c.Res.Evaluations += evals
